@@ -5,16 +5,23 @@
   of primitive effects (allocate / store into an existing cell); `writes` is the set of existing
   cells a call stores into, `documented` what the documentation allows it to modify in place
   (redshift attributes, extrapolation behaviour of the underlying model, metadata), `hidden fx`
-  the three undocumented stores of DESIGN §7 F8 that the code selected by `fx` performs.
+  the three undocumented stores of DESIGN §7 F8 that the code selected by `fx` performs (none for the
+  current code).
 
-  * `frame_partial` — for every `fx`, every store and every history, every allocated location outside
-    `documentedAlong ++ hiddenAlong fx` keeps its contents (induction over the history).
-  * `frame` — the full claim, for the repaired code (`hiddenAlong Fixes.repaired = []`).
-  * On the code as found the full claim is false: the three `*_writes_*` theorems exhibit, for each
-    hidden write-set, a call that stores there (so the boundary of `frame_partial` is exact).
+  * `frame` / `frame_current` — the full claim: for the repaired code, which is what /repo contains
+    (`Fixes.current = Fixes.repaired`), every allocated location outside the documented mutators'
+    write-sets keeps its contents over every history (induction over the history).
+  * `frame_partial` — the same for every code version `fx`, with the hidden write-sets of `fx` excluded
+    (`hiddenAlong Fixes.repaired = []`).
+  * On the code as found (before commits 0c2f796, 8588084, fa5dbd7) the full claim was false: the three
+    `*_writes_*` / `blackbody_leaves_errstate` theorems exhibit, for each hidden write-set of
+    `Fixes.asFound`, a call that stores there; they document why the fixes exist.
   * corollaries: caller-owned arrays and dictionaries and the three process-wide settings
-    (`frame_callers`), `sample_stable`, `eval_twice`, `expr_twice`; metadata: `meta_merge_spec`,
-    `meta_no_alias`.
+    (`frame_callers`, `frame_callers_partial`), `sample_stable` (+ `_repaired`, and
+    `sample_stable_reachable` for stores built by a history from the caller's pool: every call
+    preserves well-formedness, `HeapModel.wf_step`, so every object such a store holds is live,
+    `live_reachable`), `eval_twice`, `expr_twice`; metadata: `meta_merge_spec`, `arithMeta_drops`,
+    `arithMeta_lookup`, `meta_no_alias`, `meta_no_alias_result`.
 -/
 import Synphot.Lemmas.HeapWF
 
@@ -57,15 +64,14 @@ theorem writesAlong_classified (fx : Fixes) (env : HEnv K) (h : Heap K) (cs : Li
       · exact Or.inr (Or.inr h1)
 
 /-
-  NOT PROVABLE ON CURRENT CODE (DESIGN §7 F8) — the claim at full strength for the code as found:
-
-    theorem frame_asFound (env : HEnv K) (h : Heap K) (cs : List (Call K)) :
-        Frame (documentedAlong Fixes.asFound env h cs) h (run Fixes.asFound env h cs)
-
-  It fails at exactly three write-sites (`clip_writes_caller_array`, `to_fits_writes_caller_dict`,
-  `blackbody_leaves_errstate` below are counterexamples, each replayed on the implementation:
-  corpus/C19/F8_*.jsonl).  What is proved instead: `frame_partial` (any `fx`, the hidden write-sets
-  of `fx` excluded) and `frame` (the repaired code, nothing excluded).
+  History: on the code as found (`Fixes.asFound`) the claim at full strength,
+      Frame (documentedAlong Fixes.asFound env h cs) h (run Fixes.asFound env h cs),
+  was false at exactly three write-sites (DESIGN §7 F8); `clip_writes_caller_array`,
+  `frame_fails_asFound`, `to_fits_writes_caller_dict`, `blackbody_leaves_errstate` below are the
+  machine-checked counterexamples (theorems about `Fixes.asFound`, kept as the record of why the
+  three fix commits 0c2f796, 8588084, fa5dbd7 exist; regression replays corpus/C19/F8_*.jsonl).
+  `frame_partial` is the version-independent statement; `frame` / `frame_current` the full claim
+  for the code /repo contains now.
 -/
 
 /-- **frame property, any code version**: every allocated location outside the documented mutators'
@@ -89,6 +95,17 @@ theorem frame (env : HEnv K) (h : Heap K) (cs : List (Call K)) :
     Frame (documentedAlong Fixes.repaired env h cs) h (run Fixes.repaired env h cs) := by
   have := frame_partial Fixes.repaired env h cs
   rwa [hiddenAlong_repaired, List.append_nil] at this
+
+theorem current_repaired : Fixes.current = Fixes.repaired := rfl
+
+/-- **the headline: the frame property at full strength for the code in /repo now**
+(`Fixes.current`): for every store and every history of public calls — constructors on caller-owned
+arrays, sampling, arithmetic, normalisation, tapering, observations, integration, parameter
+queries, file output, module helpers, calls that raise — every allocated location outside the
+documented mutators' write-sets holds afterwards what it held before -/
+theorem frame_current (env : HEnv K) (h : Heap K) (cs : List (Call K)) :
+    Frame (documentedAlong Fixes.current env h cs) h (run Fixes.current env h cs) := by
+  rw [current_repaired]; exact frame env h cs
 
 /-! ### what the documented mutators can touch at all -/
 
@@ -619,7 +636,7 @@ theorem meta_no_alias_result (fx : Fixes) (env : HEnv K) (h : Heap K) (op : BinO
     · simp [HeapModel.hidden] at h1) h0
   exact (meta_no_alias fx env _ i j (by omega) _ h1).1 k v
 
-/-! ### the excluded write-sets are really written (code as found) -/
+/-! ### why the three fixes exist: the hidden write-sets were really written (code as found) -/
 
 /-- a store with two caller-owned float ndarrays `x = [1, 2]`, `y = [1, -1]` -/
 def w1 : Heap K := Heap.init [⟨[1, 2], .ndarray, true⟩, ⟨[1, -1], .ndarray, true⟩] []
